@@ -459,7 +459,10 @@ def generate(module, repo, want_json=False):
         it = None
         try:
             if rel not in cache:
-                cache[rel] = strip_comments(open(os.path.join(repo, rel)).read())
+                try:
+                    cache[rel] = strip_comments(open(os.path.join(repo, rel)).read())
+                except OSError:
+                    cache[rel] = ""     # file moved / removed: every item of it is "not found"
             found = find_item(cache[rel], rust)
             if found:
                 kind, attrs, body, bracket = found
